@@ -33,6 +33,8 @@ import (
 	kproto "github.com/kardiachain/go-kardia/proto/kardiachain/types"
 	"github.com/kardiachain/go-kardia/trie"
 	"github.com/kardiachain/go-kardia/types"
+
+	"verifharness/internal/mbt"
 )
 
 func init() { log.Root().SetHandler(log.DiscardHandler()) }
@@ -132,8 +134,12 @@ func (w *world) asOldCode(st *cstate.LatestBlockState) {
 	rawdb.DeleteConsensusValidatorsInfo(w.db, cstate.VerifValInfoKeyAt(st.NextValidators.Hash(), h+2))
 }
 
+// initialHeight: the genesis document's initial_height (env CSTORE_IH, default 1; the constant InitialHeight of the
+// specification).  The store-level path keeps numbering blocks LastBlockHeight+1 as the store itself does.
+var initialHeight = uint64(mbt.EnvInt("CSTORE_IH", 1))
+
 func genesisDoc(powers []int64, params int) *genesis.Genesis {
-	g := &genesis.Genesis{ChainID: chainID, InitialHeight: 1, Timestamp: genesisTime, GasLimit: configs.GenesisGasLimit}
+	g := &genesis.Genesis{ChainID: chainID, InitialHeight: initialHeight, Timestamp: genesisTime, GasLimit: configs.GenesisGasLimit}
 	for i, p := range powers {
 		tokens := new(big.Int).Mul(big.NewInt(p), configs.PowerReduction)
 		g.Validators = append(g.Validators, &genesis.GenesisValidator{
